@@ -10,47 +10,87 @@ from common import qlit, natlit, zlit, blit, lst, tup, coq_bad_indices, parallel
 
 PROP = "C04"
 PROPERTY_FILE = "Properties/C04.v"
-GEN_DEPS = ["GenC01Trunc", "GenC04Triplet"]
+GEN_DEPS = ["GenC01Trunc", "GenC04Triplet", "GenC04SetRep", "GenTieDrift"]
 RULE = ("cases: MarkovChainProcess(StepModel declared in ZERO/CENTER/ONEONE/TILDE x finite/'infinite' variation flag, dyadic a and sigma), "
         "grids as in C01 (random dyadic, fixed, credit; 0..3 refinements; support covering / exceeding / inside the grid); compared "
-        "exactly: compute_mu_h, process_drift() after initialisation, and equivalent_diffusion_coefficient**2 (relative 2^-48: two "
-        "float sqrt); exponential-of-Levy wrapper (LOG representation) with the model drift r-d+omega fed as data (1e-12); second stream: "
-        "HEM/Merton/VG/CGMY in their own declared representation against quadrature of x*nu(x).  non-trivial = distinct chain with "
-        ">= 2 states on a side")
-MODELLED = ["compute_mu_h loop, vol_adjustment, MarkovChainProcess.__init__/initialisation arithmetic (hand model, exact correspondence)",
-            "LevyTriplet.set_representation: dispatch table modelled by hand (a_tilde); the four conversions are py2coq-generated",
+        "exactly: compute_mu_h, process_drift() after initialisation (through the GENERATED dispatch), and equivalent_diffusion_coefficient**2 "
+        "(relative 2^-48: two float sqrt); exponential-of-Levy wrapper (LOG representation) with the model drift r-d+omega fed as data (1e-12); "
+        "LevyTriplet.set_representation driven directly: all 16 (declared, target) pairs x both flags, one and two calls in a row, non-member "
+        "targets, truncations on both sides of +-1 -- (a, representation) exact, raise = None; copula chains on step margins: drift vector exact, "
+        "variance_matrix (the argument of scipy.linalg.sqrtm, observed) against the assembly model with the quadrature outputs as data "
+        "(relative 2^-50), diagonal of D D^T against the step second moments (1e-5 + 1e-4 rel: library nquad); second stream: "
+        "HEM/Merton/VG/CGMY in their own declared representation against quadrature of x*nu(x); CGMY y = 1.0 margins in a copula chain against "
+        "their 1-d chains (oracle of the repaired F-C04-5).  non-trivial = distinct chain with >= 2 states on a side")
+MODELLED = ["compute_mu_h loop: hand model Model/Drift.v PROVED equal to the py2coq-generated loop Gen/GenTieDrift.v (C04_gen_compute_mu_h_is_model); "
+            "vol_adjustment, MarkovChainProcess.__init__/initialisation arithmetic (hand model, exact correspondence)",
+            "LevyTriplet.set_representation + the _drift_mapping dict of LevyTriplet.__init__ + the LevyRepresentation enum values: py2coq-generated "
+            "(Gen/GenC04SetRep.v, emitter harness/py2coq_c04.py: a state transformer on (a, representation) in the statement order of the source); "
+            "the four conversions are py2coq-generated (Gen/GenC04Triplet.v); the hand table a_tilde is PROVED equal to the TILDE instance of the "
+            "generated dispatch and the executable chain models are the generated ones",
+            "MCLevyCopulaSimulation.__init__: the unpacking loop over the pool's outputs, the per-margin zeroing loop, variance_matrix = adj + "
+            "diag(sigma^2), the joint flag LevyCopulaModel.jump_of_finite_variation = all margins of finite variation (repaired d166938; hand model "
+            "Model/CopulaDiffusion.v, tied on the observed argument of sqrtm and on the observed flags); "
+            "NOT modelled: vol_adjustment_ij (scipy nquad of the copula mass; its outputs are data / the function vadj), scipy.linalg.sqrtm, the pool",
+            "the error value of the generated conversions is a value, not an exception: center_drift on a mis-declared ZERO triplet of infinite "
+            "variation is err + tails in the model while the code raises (outside every guard; skipped by the correspondence)",
             "np.sqrt in vol_adjustment / equivalent_diffusion_coefficient: the model works with the squares",
             "first/second moment integrals of the measure: abstract additive m1, non-negative m2 over Q (concrete closed forms: C09)",
-            "MarkovChainLevyCopula.initialisation (margins of a copula chain): same compute_mu_h, each margin is an instance of the "
-            "1-d theorem when all axes are equal; see finding F-C04-1 for unequal axes"]
-ASSUMPTIONS = ["guard of every theorem that quantifies over representations: fv = true or rep <> ZERO (the conversions raise ValueError "
-               "otherwise: C04_zero_infinite_variation_is_error, correspondence group 'raise')",
+            "MarkovChainLevyCopula.initialisation (margins of a copula chain): one drift per margin with the margin's own triplet, flag and axis"]
+ASSUMPTIONS = ["guard of every theorem that quantifies over representations: fv = true or rep <> ZERO (and target <> ZERO), the conversions raise "
+               "ValueError otherwise: C04_zero_infinite_variation_is_error, correspondence groups 'raise', 'setrep1', 'setrep2'",
                "m1 a b = int_a^b x nu(dx) is additive and respects ==; m2 a b = int x^2 nu is non-negative (C09 discharges them for the "
-               "model families; C04_step_m1_additive for the harness's step measures)",
+               "model families; C04_step_m1_additive for the harness's step measures); C04_set_representation_route_independent and "
+               "C04_set_representation_dispatch need NO hypothesis on m1",
                "the truncation bounds are the end points of the axis (C13) and np.inf is any bound >= 1 beyond them (pinf)",
-               "LevyRepresentation has exactly the members ZERO, CENTER, ONEONE, TILDE (rep in 1..4)"]
+               "LevyRepresentation has exactly the members ZERO=1, CENTER=2, ONEONE=3, TILDE=4 (re-read from the source by the emitter: a change "
+               "breaks the generation)",
+               "C04_copula_diagonal_is_margin_chain_partial: vol_adjustment_ij(k,k) returns margin k's second moment over the central cell "
+               "(hypothesis; Fubini on the quadrature, compared numerically only)"]
 THEOREM_NOTES = {
-    "number system": "proved over Q inside a Section with abstract m1/m2 (simplification of DESIGN 2.1: no R instance)",
+    "number system": "proved over Q inside a Section with abstract m1/m2 (simplification of DESIGN 2.1: no R instance; the composition with C09's "
+                     "HEM integrals over R -- wave-5 objective (c) -- was not done: Chain.v/Grid.v/Drift.v and C13/C01's lemmas are Q-only, replaying "
+                     "them over R is a rewrite of three shared model files)",
     "C04_variance_gap": "proved: |sum_k x_k^2 q_k - int_{outside the central cell} x^2 nu| <= sum_k (sup_k x^2 - inf_k x^2) q_k under the per-cell "
                         "hypothesis inf q_k <= int_cell x^2 nu <= sup q_k (C09's positivity, not formally composed); with C04_variance_added "
-                        "this is the variance statement for both variation flags; the copula diffusion-matrix adjustment is not modelled",
+                        "this is the variance statement for both variation flags",
+    "generated dispatch": "C04_set_representation_dispatch (lands in the target, no-op on the same target, idempotent, calls exactly the registered "
+                          "conversion, unknown key = error), C04_set_representation_route_independent (rep->t1->t2 == rep->t2, no hypothesis on the "
+                          "measure), C04_set_representation_preserves_mean (any target), C04_mean_identity_generated(+_infinite_variation), "
+                          "C04_copula_margins_generated: the wave-1..4 statements on Gen/GenC04SetRep.v; C04_generated_dispatch_is_a_tilde / "
+                          "C04_generated_chain_is_hand_chain link the hand table to it",
+    "copula variance matrix": "C04_copula_variance_matrix_entries: every entry of variance_matrix for every dimension (loop invariant of the unpacking "
+                              "over the pool's outputs + margin loop), symmetric; C04_copula_diagonal_is_margin_chain_partial: (joint flag = all margins fv) "
+                              "the diagonal is the 1-d chain's sigma_h^2 of every margin and cross terms with a finite-variation "
+                              "margin vanish -- PARTIAL: assumes vol_adjustment_ij(k,k) = central-cell second moment of margin k (the nquad "
+                              "quadrature / Fubini identity is not formalised; the repair of F-C04-5 does not remove this hypothesis); the behaviour before the "
+                              "repair (joint flag max BG-index <= 1) survives only as Example C04_copula_joint_flag_before_repair on "
+                              "copula_joint_fv_orig / copula_chain_variance_matrix_orig",
+    "tie": "C04_gen_compute_mu_h_is_model: GenTieDrift.compute_mu_h (the enumerate loop of markovchain.py, regenerated every run) = Drift.compute_mu_h, "
+           "for every mass, middle, axis and origin",
     "copula margins": "C04_copula_margins: every margin of the REPAIRED copula chain (per-margin cut-off flag, fix-grid2 9ea0f4f; own axis, "
                       "fix-grid 7d6dfd9) reproduces its mean; C04_joint_flag_bias quantifies the bias of the previous code (F-C04-2)",
     "satisfiability": "total additivity of int x nu is assumed only by the finite-variation theorem; C04_mean_identity_infinite_variation "
-                      "(CENTER/ONEONE/TILDE) needs no hypothesis on the first-moment integral",
+                      "(CENTER/ONEONE/TILDE) needs no hypothesis on the first-moment integral; Examples C04_nonvacuous, C04_dispatch_nonvacuous, "
+                      "C04_copula_matrix_nonvacuous, C04_copula_joint_flag_before_repair",
     "cancellation": "C04_mean_identity alone is (X - mu_h) + mu_h = X plus the conversion algebra; its content is C04_mu_h_is_sum (the loop is "
                     "sum x_k q_k with C01's q), C04_mean_rate_explicit (the right-hand side in terms of int_l^r x nu) and "
                     "C04_conversions_preserve_mean (all four generated conversions keep the first cumulant)",
 }
-LEVEL_TEXT = ("Proof: 14 Coq theorems (closed under the global context): compute_mu_h's running-boundary loop equals sum_k x_k q_k for every "
-              "axis; process_drift + sum_k x_k q_k equals the first cumulant per unit time of (a, sigma, nu|[l,r]) in the declared "
-              "representation for all four representations and both variation flags (pure algebra over additivity of the first-moment "
-              "integral; the four conversions are re-translated from levymodel.py on every run); sigma_h^2 = sigma^2 for finite variation "
-              "and sigma^2 + second moment of the central cell otherwise. Tied to /repo by exact vm_compute correspondence on dyadic "
-              "step-measure chains in all 8 configurations. Partial: the variance gap bound is not formalised; copula margins with "
-              "unequal axes are a recorded finding.")
-LEVEL_NOTE = ("Trusted: Coq kernel + vm_compute; py2coq; floats modelled as Q (exact on dyadic inputs); Section hypotheses on m1/m2 (C09).")
-TECHNIQUE = "Coq proof over Q (loop invariant by induction, lra) + py2coq for the LevyTriplet conversions + exact vm_compute correspondence on StepModel chains"
+LEVEL_TEXT = ("Proof: 24 Coq theorems + 4 examples (closed under the global context): compute_mu_h's running-boundary loop equals sum_k x_k q_k for "
+              "every axis and is the py2coq-generated loop of markovchain.py (tie lemma); process_drift + sum_k x_k q_k equals the first cumulant per unit time of (a, sigma, nu|[l,r]) in the declared "
+              "representation for all four representations and both variation flags, stated on the py2coq-generated dispatch "
+              "LevyTriplet.set_representation (+ _drift_mapping + enum values) and the four generated conversions; the dispatch lands in its "
+              "target, is idempotent, route independent and keeps the first cumulant; sigma_h^2 = sigma^2 for finite variation and sigma^2 + "
+              "second moment of the central cell otherwise; variance-gap bound; every entry of the copula chain's variance_matrix for every "
+              "dimension (loop invariants) with the joint flag = all margins of finite variation, its diagonal = the 1-d sigma_h^2 of each margin (partial: the "
+              "quadrature vol_adjustment_ij is a hypothesis). Tied to /repo by exact vm_compute correspondence on dyadic step-measure chains in "
+              "all 8 configurations, on set_representation for all 16 pairs x 2 flags (one and two calls), on copula drift vectors and on the "
+              "observed variance_matrix and joint/margin flags. Finding F-C04-5 (joint flag max BG-index <= 1 left CGMY y = 1 margins of a copula "
+              "chain without small-jump variance) repaired by d166938; its oracle (CGMY y = 1.0 margins against their 1-d chains) stays in the check.")
+LEVEL_NOTE = ("Trusted: Coq kernel + vm_compute; py2coq + emitter py2coq_c04; floats modelled as Q (exact on dyadic inputs); Section hypotheses on "
+              "m1/m2 (C09); scipy nquad / sqrtm outside the model.")
+TECHNIQUE = ("Coq proof over Q (loop invariants by induction, lra) + py2coq for the LevyTriplet conversions and the set_representation dispatch + "
+             "exact vm_compute correspondence on StepModel chains, triplets and copula chains")
 
 REP_VAL = {"ZERO": 1, "CENTER": 2, "ONEONE": 3, "TILDE": 4}
 
@@ -218,26 +258,27 @@ def correspond(res):
         opt_cases.append("([(-2, 2, 3)], [-2; -1; 0; 1; 2], 2%nat, 0, 1%Z, false, (1#2), None)")
     groups = [
         ("raise", "list (Q * Q * Q) * list Q * nat * Q * Z * bool * Q * option Q",
-         "fun c => match c with (ps, xs, o, md, rep, fv, a, e) => option_eqb Qeq_bool (chain_process_drift_opt ps xs o md rep fv a) e end", opt_cases),
+         "fun c => match c with (ps, xs, o, md, rep, fv, a, e) => option_eqb Qeq_bool (chain_process_drift_gen_opt ps xs o md rep fv a) e end", opt_cases),
         ("exact", ty, "fun c => match c with (ps, xs, o, md, rep, fv, a, sigma, h, pd, muh, e2) => "
-                      "Qeq_bool (chain_process_drift ps xs o md rep fv a) pd && Qeq_bool (chain_mu_h ps xs o) muh && " + sig_ok + " end", cases),
+                      "Qeq_bool (chain_process_drift_gen ps xs o md rep fv a) pd && Qeq_bool (chain_mu_h ps xs o) muh && " + sig_ok + " end", cases),
         ("tol", ty, "fun c => match c with (ps, xs, o, md, rep, fv, a, sigma, h, pd, muh, e2) => "
-                    "(let m := chain_process_drift ps xs o md rep fv a in Qle_bool (Qabs (pd - m)) ((1 + Qabs m) * (1 # 1000000000000))) && "
+                    "(let m := chain_process_drift_gen ps xs o md rep fv a in Qle_bool (Qabs (pd - m)) ((1 + Qabs m) * (1 # 1000000000000))) && "
                     "(let m := chain_mu_h ps xs o in Qle_bool (Qabs (muh - m)) ((1 + Qabs m) * (1 # 1000000000000))) && " + sig_ok + " end", exp_cases),
     ]
 
     _real_stream(res, rng, viol, 1 if not thorough else 4)
     _copula_margins(res, rng, viol)
     _copula_drift(res, rng, viol, groups, 10 if not thorough else 80)
+    _set_representation(res, rng, viol, groups, 160 if not thorough else 1600)
 
     header = ("From Coq Require Import ZArith QArith Qabs List Bool.\nFrom RV Require Import Base.QB Model.Grid Gen.GenC01Trunc Gen.GenC04Triplet "
-              "Model.Chain Model.Drift.\nOpen Scope Q_scope.")
+              "Gen.GenC04SetRep Model.Chain Model.Drift Model.DriftGen Model.CopulaDiffusion.\nOpen Scope Q_scope.")
     res.case_lemmas += len(groups)
     for gname, ty_, chk, cs in groups:
         if not cs:
             res.broke(f"correspondence {gname}", "the generator produced no case for this group")
             continue
-        bad, _ = parallel_coq_bad(PROP, f"cases_{gname}", header, ty_, chk, cs, shard=(2 if gname in ("copuladrift", "copulasig2") else 10), jobs=14)
+        bad, _ = parallel_coq_bad(PROP, f"cases_{gname}", header, ty_, chk, cs, shard=(2 if gname in ("copuladrift", "copulasig2", "copulavarmatrix") else 10), jobs=14)
         if bad:
             res.broke(f"correspondence {gname}", f"model and implementation differ on {len(bad)} case(s), first: {cs[bad[0]][:1500]}")
         else:
@@ -364,10 +405,27 @@ def _copula_margins(res, rng, viol):
                      got=float(got), want=float(want))
 
 
+class _record_sqrtm:
+    """observe (not alter) the matrix MCLevyCopulaSimulation.__init__ hands to scipy.linalg.sqrtm"""
+    def __enter__(self):
+        import scipy.linalg
+        self._mod, self._orig, self.seen = scipy.linalg, scipy.linalg.sqrtm, []
+
+        def sqrtm(a, *args, **kw):
+            self.seen.append(np.array(a, dtype=float).copy())
+            return self._orig(a, *args, **kw)
+        scipy.linalg.sqrtm = sqrtm
+        return self.seen
+
+    def __exit__(self, *exc):
+        self._mod.sqrtm = self._orig
+        return False
+
+
 def _copula_drift(res, rng, viol, groups, n_cases):
     """MarkovChainLevyCopula.initialisation: the drift VECTOR of a copula chain whose margins have different
     finite-variation flags / representations / (credit-like) different axes -- exact on step margins (F-C04-2)"""
-    from rpylib.process.markovchain.markovchainlevycopula import MarkovChainLevyCopula
+    from rpylib.process.markovchain.markovchainlevycopula import MarkovChainLevyCopula, vol_adjustment_ij
     from rpylib.distribution.sampling import SamplingMethod
     from rpylib.distribution.samplingfactory import create_q_vector
     from rpylib.grid.spatial import CTMCGrid
@@ -375,7 +433,7 @@ def _copula_drift(res, rng, viol, groups, n_cases):
     from rpylib.distribution.levycopula import IndependentComponentsCopula
     from rpylib.model.levymodel.levymodel import TruncatedLevyMeasure
     from stepmeasure import random_step_measure, random_dyadic_axis, step_spec, build_model
-    cases, sig_cases = [], []
+    cases, sig_cases, vm_cases = [], [], []
     for it in range(n_cases):
         dim = rng.choice([2, 2, 3])
         h = Fr(1, 2)
@@ -406,11 +464,20 @@ def _copula_drift(res, rng, viol, groups, n_cases):
                 warnings.simplefilter("ignore")
                 model = LevyCopulaModel([build_model(sp) for sp in specs], IndependentComponentsCopula())
                 grid = CTMCGrid(h=float(h), origin_coordinate=o, axes=[np.array([float(x) for x in ax[0]]) for ax in axes])
-                p = MarkovChainLevyCopula(levy_copula_model=model, grid=grid, method=SamplingMethod.INVERSION)
-                p.initialisation(_product())
+                with _record_sqrtm() as rec:
+                    p = MarkovChainLevyCopula(levy_copula_model=model, grid=grid, method=SamplingMethod.INVERSION)
+                    p.initialisation(_product())
                 drift = [float(v) for v in np.ravel(p.process_drift())]
                 dmat = np.real(np.array(p._path_simulation.diffusion_matrix, dtype=complex))
                 var_matrix = dmat @ dmat.T
+                vm_in = np.array(rec[-1], dtype=float)          # the variance_matrix handed to scipy.linalg.sqrtm (last construction)
+                joint = bool(p.model.jump_of_finite_variation())
+                mflags = [bool(m.jump_of_finite_variation()) for m in p.model.models]
+                # the pool's outputs, recomputed in-process with the same arguments (deterministic quadrature)
+                # (a 3-d infinite-variation model spends ~10 s per nquad: recomputed for the first 3 such cases of a run only)
+                slow = (not joint) and dim >= 3
+                recompute = not slow or sum(1 for c_ in vm_cases if c_.startswith("(* 3d *)")) < 3
+                outs = [] if joint else ([float(vol_adjustment_ij(i, j, p.grid.h, p.model)) for i in range(dim) for j in range(i, dim)] if recompute else None)
         except Exception as e:  # noqa
             viol(f"initialising the copula chain raises {type(e).__name__}", reason=str(e)[:200], **ctx)
             continue
@@ -427,6 +494,20 @@ def _copula_drift(res, rng, viol, groups, n_cases):
         if np.max(np.abs(var_matrix - want_m)) > 1e-5 + 1e-4 * float(max(want_diag)):
             viol("copula chain: D D^T of the diffusion matrix is not diag(sigma_k^2 + central-cell second moment of the infinite-variation margins)",
                  finding="F-C04-3", flags=flags, got=[[float(v) for v in row] for row in var_matrix], want=[float(v) for v in want_diag], **ctx)
+        # the assembly of variance_matrix (unpacking loop, margin loop, + diag sigma^2) against Model/CopulaDiffusion.v: the quadrature
+        # outputs are data; one float addition per diagonal entry: relative 2^-50
+        if mflags != flags or joint != all(mflags):
+            viol("LevyCopulaModel.jump_of_finite_variation() is not 'every margin has jumps of finite variation' (a margin of infinite variation "
+                 "would get no central-cell variance)", finding="F-C04-5", margin_flags=mflags, joint=joint, **ctx)
+        for r_ in range(dim):
+            for c_ in range(dim):
+                if r_ != c_ and (flags[r_] or flags[c_]) and vm_in[r_][c_] != 0.0:
+                    viol("copula chain: a cross term of variance_matrix involving a margin of finite variation is not zero",
+                         finding="F-C04-4", entry=[r_, c_], got=float(vm_in[r_][c_]), flags=flags, **ctx)
+        res.bump("copula_variance_matrix", f"dim {dim}, {'joint fv (pool not run)' if joint else 'pool outputs not recomputed (slow)' if outs is None else 'pool outputs: ' + str(len(outs))}")
+        if outs is not None:
+            vm_cases.append(("(* 3d *)" if slow else "") + f"({lst([tup([qlit(sig), blit(flags[k])]) for k, (nu, rep, a, sig) in enumerate(margins)])}, "
+                        f"{lst([qlit(v) for v in outs])}, {lst([lst([qlit(float(v)) for v in row]) for row in vm_in])})")
         sig_cases.append(f"({lst(['(' + nu.coq() + ', ' + lst([qlit(float(x)) for x in axes[k][0]]) + ', ' + qlit(sig) + ', ' + blit(flags[k]) + ')' for k, (nu, rep, a, sig) in enumerate(margins)])}, "
                          f"{qlit(h)}, {lst([qlit(float(var_matrix[k][k])) for k in range(dim)])})")
         res.count(("copula-drift", it, tuple(flags), dim, same_axes), kind=f"copula chain drift ({'mixed' if len(set(flags)) > 1 else 'equal'} flags)")
@@ -445,8 +526,41 @@ def _copula_drift(res, rng, viol, groups, n_cases):
     groups.append(("copulasig2", "list (list (Q * Q * Q) * list Q * Q * bool) * Q * list Q",
                    "fun c => match c with (ms, h, e) => let m := copula_chain_sig2 ms h in Nat.eqb (length m) (length e) && "
                    "forallb (fun xy => Qle_bool (Qabs (fst xy - snd xy)) ((1 # 100000) + (1 # 10000) * Qabs (fst xy))) (combine m e) end", sig_cases))
+    groups.append(("copulavarmatrix", "list (Q * bool) * list Q * list (list Q)",
+                   "fun c => match c with (ms, outs, e) => let m := copula_chain_variance_matrix ms outs in "
+                   "Nat.eqb (length m) (length e) && forallb (fun rr => Nat.eqb (length (fst rr)) (length (snd rr)) && "
+                   "forallb (fun xy => Qle_bool (Qabs (fst xy - snd xy)) (Qabs (fst xy) * (1 # 1125899906842624))) (combine (fst rr) (snd rr))) (combine m e) end",
+                   vm_cases))
     groups.append(("copuladrift", "list (list (Q * Q * Q) * list Q * nat * Q * Z * bool * Q) * list Q",
-                   "fun c => qlist_eqb (copula_chain_drift (fst c)) (snd c)", cases))
+                   "fun c => qlist_eqb (copula_chain_drift_gen (fst c)) (snd c)", cases))
+    # F-C04-5: margins with Blumenthal-Getoor index exactly 1 that report jumps of infinite variation (CGMY y = 1.0): the 1-d chain of
+    # each margin adds the central cell's second moment; the copula chain must add a positive variance to that margin too
+    from rpylib.grid.spatial import CTMCUniformGrid
+    from stepmeasure import build_copula_model
+    sp1 = [{"family": "CGMY", "kwargs": dict(c=0.05, g=10.0, m=8.0, y=1.0)}, {"family": "CGMY", "kwargs": dict(c=0.08, g=12.0, m=9.0, y=1.0)}]
+    ctx = dict(kind="copula-variance-bg1", models=sp1, h=0.1, copula="clayton")
+    try:
+        with warnings.catch_warnings():
+            warnings.simplefilter("ignore")
+            model = build_copula_model(sp1, "clayton")
+            grid = CTMCUniformGrid(h=0.1, model=model)
+            p = MarkovChainLevyCopula(levy_copula_model=model, grid=grid, method=SamplingMethod.INVERSION)
+            p.initialisation(_product())
+            dmat = np.real(np.array(p._path_simulation.diffusion_matrix, dtype=complex))
+            vm = dmat @ dmat.T
+            for k in (0, 1):
+                m1 = build_model(sp1[k])
+                p1 = build_process(m1, CTMCUniformGrid(h=0.1, model=m1))
+                added_1d = float(p1.equivalent_diffusion_coefficient) ** 2 - float(m1.diffusion_coefficient()) ** 2
+                added_cop = float(vm[k][k]) - float(m1.diffusion_coefficient()) ** 2
+                res.count(("copula-variance-bg1", k), kind="copula chain variance, margins with BG index exactly 1")
+                if not m1.jump_of_finite_variation() and added_1d > 1e-6 and added_cop < 0.25 * added_1d:
+                    viol("copula chain: a margin with jumps of infinite variation gets (almost) no central-cell variance although its 1-d chain adds it "
+                         "(F-C04-5: the joint flag was max Blumenthal-Getoor index <= 1)", finding="F-C04-5", margin=k, added_by_copula_chain=added_cop,
+                         added_by_1d_chain=added_1d, joint_flag=bool(model.jump_of_finite_variation()),
+                         margin_flags=[bool(m.jump_of_finite_variation()) for m in model.models], **ctx)
+    except Exception as e:  # noqa
+        viol(f"initialising the copula chain raises {type(e).__name__}", reason=str(e)[:200], **ctx)
     # real margins with different flags (tolerance): HEM (finite variation) with CGMY y = 1.3 (infinite variation)
     from rpylib.grid.spatial import CTMCUniformGrid
     from stepmeasure import build_copula_model
@@ -478,6 +592,107 @@ def _copula_drift(res, rng, viol, groups, n_cases):
             viol(f"initialising the copula chain raises {type(e).__name__}", reason=str(e)[:200], **ctx)
 
 
+def _set_representation(res, rng, viol, groups, n_cases):
+    """LevyTriplet.set_representation driven directly: every (declared representation, target) pair, both variation flags, one call
+    and two calls in a row on the same triplet, on truncated dyadic step measures -- (triplet.a, triplet.representation.value)
+    compared exactly with the py2coq-generated dispatch (Gen/GenC04SetRep.v); a call that raises = None.
+    Oracle on the implementation alone: the triplet ends in the target representation, the first cumulant (independent Fraction
+    arithmetic on the measure) is unchanged, and t1 -> t2 gives the drift of a direct t2 on a fresh triplet."""
+    from rpylib.model.levymodel.levymodel import LevyRepresentation, LevyTriplet, TruncatedLevyMeasure
+    from stepmeasure import random_step_measure, InexactFloat
+    names = {1: "ZERO", 2: "CENTER", 3: "ONEONE", 4: "TILDE"}
+    ZERO_IV = "the ZERO representation requires jumps of finite variation"
+
+    def call(triplet, t):
+        """-> None if the call raises one of the two documented errors, else (a, representation value)"""
+        try:
+            triplet.set_representation(LevyRepresentation(t) if t in names else t)
+        except ValueError as e:
+            if ZERO_IV not in str(e):
+                raise
+            return None
+        except KeyError:
+            if t in names:
+                raise
+            return None
+        rv = triplet.representation
+        return float(triplet.a), (rv.value if isinstance(rv, LevyRepresentation) else int(rv))
+
+    one, two = [], []
+    combos = [(rep, t1, fv) for rep in (1, 2, 3, 4) for t1 in (1, 2, 3, 4) for fv in (True, False)]
+    for it in range(n_cases):
+        rep, t1, fv = combos[it % len(combos)] if it < 2 * len(combos) else (rng.randrange(1, 5), rng.randrange(1, 5), rng.random() < 0.5)
+        t2 = rng.randrange(1, 5) if rng.random() < 0.5 else None
+        if it % 37 == 36:
+            t1 = rng.choice([0, 5, 7])                       # not a member: _drift_mapping[...] raises KeyError
+        left, right = -Fr(rng.randrange(1, 25), 8), Fr(rng.randrange(1, 25), 8)      # truncations on both sides of +-1
+        nu = random_step_measure(rng, left - Fr(rng.randrange(0, 9), 4), right + Fr(rng.randrange(0, 9), 4), bits=2, cover=True, max_pieces=5)
+        nu.finite_variation = fv
+        a = Fr(rng.randrange(-16, 17), 8)
+        # the error value of the generated conversions is a VALUE, not an exception: center_drift on a (mis-declared) ZERO triplet of
+        # infinite variation is err + tails in the model while the code raises; such calls are outside every theorem's guard: skipped
+        cur, skip = rep, False
+        for t in (t1, t2):
+            if t is None or t not in names:
+                break
+            if t == cur:
+                continue
+            if not fv and (t == 1 or cur == 1):          # this call raises; the model returns exactly `err` except for center_drift
+                skip = cur == 1 and t == 2
+                break
+            cur = t
+        if skip:
+            res.bump("setrep", "skipped: CENTER from ZERO/infinite variation (error value not propagated)")
+            continue
+        ctx = dict(kind="setrep", breaks=[str(b) for b in nu.breaks], dens=[str(d) for d in nu.dens], fv=fv, l=float(left), r=float(right),
+                   a=float(a), rep=rep, t1=t1, t2=t2)
+        try:
+            def fresh():
+                return LevyTriplet(sigma=0.25, nu=TruncatedLevyMeasure(nu, (float(left), float(right))), a=float(a), representation=LevyRepresentation(rep))
+            tr = fresh()
+            o1 = call(tr, t1)
+            o2 = call(tr, t2) if (o1 is not None and t2 is not None) else None
+            direct = call(fresh(), t2) if t2 is not None else None
+        except InexactFloat:
+            res.bump("setrep", "skipped: inexact float")
+            continue
+        except Exception as e:  # noqa
+            viol(f"LevyTriplet.set_representation raises {type(e).__name__}", reason=str(e)[:200], **ctx)
+            continue
+        res.count(("setrep", it, rep, t1, t2, fv, str(nu.pieces()), str(left), str(right), str(a)), kind=f"set_representation {'x2' if t2 else 'x1'}")
+        res.bump("setrep_pair", f"{names[rep]}->{names.get(t1, 'non-member')}{'->' + names[t2] if t2 else ''}/{'fv' if fv else 'iv'}")
+        res.bump("setrep_outcome", "raises" if o1 is None else "converted" if t1 != rep else "no-op")
+        # ---- oracle: implementation outputs + Fraction arithmetic on the measure
+        must_raise = (t1 not in names) or (t1 == 1 and rep != 1 and not fv) or (rep == 1 and not fv and t1 != 1)
+        if must_raise != (o1 is None):
+            viol("set_representation: a conversion that involves the ZERO representation with jumps of infinite variation (or an unknown "
+                 "representation) must raise, every other one must not", raised=o1 is None, **ctx)
+        if o1 is not None:
+            if o1[1] != t1:
+                viol("set_representation leaves the triplet in a representation other than the target", got=o1[1], **ctx)
+            want = mean_rate_q(nu, left, right, names[rep], fv, a)
+            got = mean_rate_q(nu, left, right, names[t1], fv, Fr(o1[0]))
+            if got != want:
+                viol("set_representation changes the first cumulant of the truncated process", got=float(got), want=float(want), **ctx)
+        if o2 is not None and direct is not None and (Fr(o2[0]) != Fr(direct[0]) or o2[1] != direct[1]):
+            viol("set_representation is route dependent: rep -> t1 -> t2 differs from rep -> t2", got=list(o2), want=list(direct), **ctx)
+        if o1 is not None and t2 is not None and (o2 is None) != (direct is None):
+            viol("set_representation is route dependent: rep -> t1 -> t2 raises and rep -> t2 does not (or the other way round)", **ctx)
+
+        def olit(o):
+            return "None" if o is None else f"(Some ({qlit(o[0])}, {zlit(o[1])}))"
+        head = f"{nu.coq()}, {qlit(left)}, {qlit(right)}"
+        if t2 is None:
+            one.append(f"({head}, {zlit(t1)}, {zlit(rep)}, {blit(fv)}, {qlit(a)}, {olit(o1)})")
+        else:
+            two.append(f"({head}, {zlit(t1)}, {zlit(t2)}, {zlit(rep)}, {blit(fv)}, {qlit(a)}, {olit(o2)})")
+    eqb = "(option_eqb (fun x y => Qeq_bool (fst x) (fst y) && Z.eqb (snd x) (snd y)))"
+    groups.append(("setrep1", "list (Q * Q * Q) * Q * Q * Z * Z * bool * Q * option (Q * Z)",
+                   f"fun c => match c with (ps, l, r, t, rep, fv, a, e) => {eqb} (step_set_representation ps l r t rep fv a) e end", one))
+    groups.append(("setrep2", "list (Q * Q * Q) * Q * Q * Z * Z * Z * bool * Q * option (Q * Z)",
+                   f"fun c => match c with (ps, l, r, t1, t2, rep, fv, a, e) => {eqb} (step_set_representation2 ps l r t1 t2 rep fv a) e end", two))
+
+
 def search(res):
     rng = random.Random(res.seed + 11)
 
@@ -497,6 +712,26 @@ def replay(path):
         _copula_margins(type("R", (), {"count": lambda *a, **kw: None})(), random.Random(0), lambda what, **kw: out.append((what, kw.get("got"), kw.get("want"))))
         print("still fails:" if out else "no failure on replay", out)
         return 1 if out else 0
+    if k == "copula-variance-bg1":
+        from rpylib.grid.spatial import CTMCUniformGrid
+        from rpylib.process.markovchain.markovchainlevycopula import MarkovChainLevyCopula
+        from rpylib.distribution.sampling import SamplingMethod
+        from stepmeasure import build_copula_model
+        with warnings.catch_warnings():
+            warnings.simplefilter("ignore")
+            model = build_copula_model(data["models"], data.get("copula", "clayton"))
+            p = MarkovChainLevyCopula(levy_copula_model=model, grid=CTMCUniformGrid(h=data["h"], model=model), method=SamplingMethod.INVERSION)
+            p.initialisation(_product())
+            dmat = np.real(np.array(p._path_simulation.diffusion_matrix, dtype=complex))
+            kk = data["margin"]
+            m1 = build_model(data["models"][kk])
+            p1 = build_process(m1, CTMCUniformGrid(h=data["h"], model=m1))
+        added_cop = float((dmat @ dmat.T)[kk][kk]) - float(m1.diffusion_coefficient()) ** 2
+        added_1d = float(p1.equivalent_diffusion_coefficient) ** 2 - float(m1.diffusion_coefficient()) ** 2
+        print("variance added to margin", kk, "by the copula chain:", added_cop, " by its 1-d chain:", added_1d)
+        bad = added_1d > 1e-6 and added_cop < 0.25 * added_1d
+        print("still fails" if bad else "no failure on replay")
+        return 1 if bad else 0
     if k not in ("step", "real"):
         print("replay: re-run ./check C04")
         return 1
